@@ -93,6 +93,14 @@ def templates(depth):
                     break
         for t in pool:
             nxt.append(Q(t) if not (isinstance(t, tuple) and t[0] == "q") else t)
+        # lists written with two and three quote marks (a quote object around the quoted list), holding unquotes,
+        # alone and as elements of a template list
+        for inner in ([S("a"), UQ(S("x"))], [UQ(S("x")), UQS(S("xs"))], [[UQ(S("x"))], 1], UQ(S("x"))):
+            for marks in (2, 3):
+                t = inner
+                for _ in range(marks):
+                    t = Q(t)
+                nxt += [t, [S("f"), t], [t, UQ(S("x"))], [S("g"), [t]]]
         level = nxt
     return level
 
@@ -154,7 +162,9 @@ def _run(V, work, tier):
                                             [S("probe"), [S("macroexpand-1"), Q([S("made-mac"), 5])]]], None))
     ts = templates(2)
     if not thorough:
-        ts = ts[:60] + rnd.sample(ts[60:], 700)
+        multi = [t for t in ts if "('q', ('q'," in repr(t)]       # templates with two or more quote marks: always all of them
+        rest = [t for t in ts if "('q', ('q'," not in repr(t)]
+        ts = rest[:60] + rnd.sample(rest[60:], 640) + multi[:120]
     for t in ts:
         progs_.append(("qq", [[S("let"), [[S("x"), 7], [S("xs"), Q([8, 9])], [S("e"), []]],
                                [S("probe"), [S("handler-bind"), [[S("condition"), [S("lambda"), [S("c"), S("&rest"), S("r")], Q(S("qq-error"))]]], QQ(t)]]]], t))
